@@ -29,6 +29,7 @@ DoCreateNotified(s) == CreateNotified(s) /\ SubStep(s, "CreateNotified")
 DoCheckSome(s) == CheckSome(s) /\ SubStep(s, "CheckSome")
 DoCheckNone(s) == CheckNone(s) /\ SubStep(s, "CheckNone")
 DoAwaitReturn(s) == AwaitReturn(s) /\ SubStep(s, "AwaitReturn")
+DoCancel(s) == Cancel(s) /\ SubStep(s, "Cancel")
 DoPRecv == PRecv /\ PipeStep("PRecv")
 DoPRemove == PRemove /\ PipeStep("PRemove")
 DoPRemoveMissing == PRemoveMissing /\ PipeStep("PRemoveMissing")
@@ -39,7 +40,7 @@ DoTerminated == Terminated /\ UNCHANGED hist
 
 MCNext ==
     \/ \E s \in Sub : \/ DoTrack(s) \/ DoSend(s) \/ DoCreateNotified(s)
-                       \/ DoCheckSome(s) \/ DoCheckNone(s) \/ DoAwaitReturn(s)
+                       \/ DoCheckSome(s) \/ DoCheckNone(s) \/ DoAwaitReturn(s) \/ DoCancel(s)
     \/ DoPRecv \/ DoPRemove \/ DoPRemoveMissing \/ DoPSet \/ DoPNotify \/ DoPUnlock
     \/ DoTerminated
 
